@@ -171,6 +171,14 @@ theorem amp_files_entries (dT dC : Data) (f : Rat) (indsT indsC : List (List Nat
     (exportAmpFiles dT dC f indsT indsC).clustersAmps.length = dC.wfsW.length :=
   Lemmas.amp_files_entries dT dC f indsT indsC haT haC
 
+/-- **what the driver evaluates IS the export model** — the op `amp_files` runs `exportAmpFilesOnce`
+(`templates_amps_au` and the unwhitened waveforms bound once, as model.py:1139-1146 does; needed for recordings of
+tens of thousands of spikes), which is `exportAmpFiles` for every input: every theorem below about `exportAmpFiles`
+speaks about the values compared with the real files. -/
+theorem amp_files_once_eq (dT dC : Data) (f : Rat) (indsT indsC : List (List Nat)) :
+    exportAmpFilesOnce dT dC f indsT indsC = exportAmpFiles dT dC f indsT indsC :=
+  exportAmpFilesOnce_eq dT dC f indsT indsC
+
 /-- Complement (homogeneity, also for the two WAVEFORM files): every file written with `ampfactor = f` is, entry by
 entry, the file written with `ampfactor = 1` times `f` (NaN stays NaN).  By itself this only restates the last step of
 `amplitudesTrue`; the content of the amplitude files is `amp_files_entries` above, that of the waveform files
@@ -327,6 +335,11 @@ example : exportAmpFiles exT exC (5/2) [[0, 1], [1, 0], [0, 1]] [[1], [1]] =
       templatesWaveforms := [some [[15/2, 0], [-15/2, 15/4]], some [[15/8, 0], [-15/8, 0]], none],
       clustersAmps := [some 20, some (45/8)], clustersWaveforms := [some [[0], [5]], some [[45/16], [-45/16]]] } := by
   decide +kernel
+-- the driver's evaluation order gives the same five files (computed independently here, then `amp_files_once_eq`)
+example : (exportAmpFilesOnce exT exC (5/2) [[0, 1], [1, 0], [0, 1]] [[1], [1]]).templatesAmps = [some 15, some (15/4), none] := by
+  decide +kernel
+example : exportAmpFilesOnce exT exC (5/2) [[0, 1], [1, 0], [0, 1]] [[1], [1]] =
+    exportAmpFiles exT exC (5/2) [[0, 1], [1, 0], [0, 1]] [[1], [1]] := amp_files_once_eq _ _ _ _ _
 example : (exportAmpFiles exT exC (5/2) [] []).spikesAmps = (exportAmpFiles exT exC 1 [] []).spikesAmps.map (· * (5/2)) :=
   (amps_carry_factor exT exC (5/2) [] []).1
 example : (exportAmpFiles exT exC (5/2) [] []).spikesAmps.getD 1 0 = 2 * 4 * (5/2) := by
